@@ -24,6 +24,12 @@ CHECKS["C16"] = dict(level="model_checking", engine="E1-bfs",
    note="Trusted: the walker's decoding uses only the generated protobuf types and encoding/json; 'fresh process' is a fresh connection with its own (empty) node cache in the same OS process.",
    ref="§5 C16")
 
+CHECKS["C07"] = dict(level="exploration", engine="E4-domain",
+   technique="exhaustive enumeration of all pairs/triples over a boundary alphabet of key values against SQLite's own comparison, and of all ordered insert pairs end-to-end on multi-level trees against a native table",
+   text="Over a boundary alphabet of 39 (quick) / 86 (thorough) key values of all storage classes (int64 limits, +-2^53+-1, +-0, +-inf, 2^63 as real, empty/non-ASCII text, blobs): every ordered pair is compared with the result of SQLite's own comparison of the bound values and checked for antisymmetry and Layer agreement of equal keys (branch factors 2,3,4,16,4096); every triple is checked for transitivity; every ordered pair is inserted end to end into a pre-filled multi-level tree (entries_per_node 2,3[,4,16],4096) and outcome plus ORDER BY result compared with a native table, also from a fresh connection; NULL keys must be rejected without changing the table.",
+   note="Trusted: SQLite's comparison of bound values as the reference order. Only alphabet values are covered (bounded input-domain enumeration, not a proof over all int64/float64).",
+   ref="§5 C07")
+
 NOT_YET = {}
 
 props = [json.loads(l) for l in open("properties.jsonl")]
